@@ -50,6 +50,7 @@ struct Attempt
 	int local_port = 0;
 	ip::address local_addr;      // real local address
 	bool client_closed_before_done = false;
+	bool listen_changed = false; // the dialled acceptor, bound but not listening at issue, began to listen before the connect completed: either outcome
 	// data
 	std::vector<uint8_t> got;    // bytes the connector received
 	bool read_err = false;
@@ -92,6 +93,7 @@ struct Conn
 		tcp::endpoint ep;
 		std::unique_ptr<tcp::acceptor> a;
 		bool listening = false;
+		bool bound_only = false; // open and bound, listen() not called (yet)
 		int pending_accept = -1; // index into accepts
 		std::vector<std::pair<uint64_t, uint64_t>> open_spans; // [gseq at listen, gseq at close)
 	} acc[k_max_acc];
@@ -279,7 +281,20 @@ struct Conn
 	void do_listen(int a, int wildcard)
 	{
 		Acc& A = acc[a];
-		if (A.a->is_open()) return;
+		if (A.a->is_open())
+		{
+			if (!A.bound_only) return;
+			// the second half of a split open+bind ... listen
+			error_code lec;
+			A.a->listen(5, lec);
+			if (lec) { fail("conn.listen.listen", "listen failed: " + lec.message()); return; }
+			A.bound_only = false;
+			A.listening = true;
+			A.open_spans.emplace_back(net.gseq, UINT64_MAX);
+			for (auto& at : attempts) if (at.target_acc == a && !at.done && !at.listener_at_issue) at.listen_changed = true;
+			ev("listen", a, 0, 0);
+			return;
+		}
 		error_code ec;
 		A.a->open(A.ep.address().is_v4() ? tcp::v4() : tcp::v6(), ec);
 		// binding to the wildcard resolves to the node's first address of the family
@@ -291,6 +306,14 @@ struct Conn
 			A.a->bind(tcp::endpoint(A.ep.address().is_v4() ? ip::address(ip::address_v4::any()) : ip::address(ip::address_v6::any()), A.ep.port()), ec);
 		else A.a->bind(A.ep, ec);
 		if (ec) { fail("conn.listen.bind", "binding a free endpoint on the acceptor's own address failed: " + ec.message()); return; }
+		if (wildcard & 2)
+		{
+			// bound, but not listening: connects are refused (also on an acceptor object that listened before)
+			A.bound_only = true;
+			ev("bind_only", a, 0, 0);
+			ctx.hit("acceptor_bound_not_listening");
+			return;
+		}
 		A.a->listen(5, ec);
 		if (ec) { fail("conn.listen.listen", "listen failed: " + ec.message()); return; }
 		A.listening = true;
@@ -432,8 +455,9 @@ struct Conn
 		if (throwing_overload & 1) { A.a->close(); ctx.hit("close_acceptor_noarg"); }
 		else A.a->close(ec);
 		if (A.a->is_open()) fail("conn.acceptor_close", "acceptor::close() returned but the acceptor is still open");
+		if (A.listening && !A.open_spans.empty()) A.open_spans.back().second = net.gseq;
 		A.listening = false;
-		if (!A.open_spans.empty()) A.open_spans.back().second = net.gseq;
+		A.bound_only = false;
 		ev("close_acceptor", a, 0, 0);
 		ctx.hit("close_acceptor");
 	}
@@ -568,6 +592,9 @@ struct Conn
 								if (at.local_port == r.src_port && at.target_acc == a && at.issue_gseq < r.gseq) issued = std::max<uint64_t>(issued, at.issue_gseq + 1);
 							bool open = false;
 							for (auto const& sp : acc[a].open_spans) if (issued > sp.first && r.gseq <= sp.second && issued != 0) open = true;
+							// an acceptor that began to listen while the connect was under way: the SYN counts iff the connect succeeded
+							for (auto const& at : attempts)
+								if (at.local_port == r.src_port && at.target_acc == a && at.listen_changed && at.issue_gseq < r.gseq) open = at.done && !at.ec;
 							if (open) syn_order[a].push_back(r.src_port);
 							else ctx.hit("syn_to_closed_acceptor");
 						}
@@ -578,7 +605,7 @@ struct Conn
 			if (at.done && !at.ec)
 			{
 				ctx.hit("connect_success");
-				if (!at.listener_at_issue)
+				if (!at.listener_at_issue && !at.listen_changed)
 					fail("conn.success_without_listener", who + " succeeded although no acceptor was listening on that endpoint when it was issued");
 				// exactly one accept on that acceptor took it
 				int n = 0;
@@ -586,7 +613,7 @@ struct Conn
 				if (n != 1)
 					fail("conn.pairing", who + " succeeded but is matched by " + std::to_string(n) + " successful accepts on that acceptor");
 			}
-			if (!at.listener_at_issue && at.family_possible && !at.client_closed_before_done)
+			if (!at.listener_at_issue && at.family_possible && !at.client_closed_before_done && !at.listen_changed)
 			{
 				if (!at.done)
 					fail("conn.refused.missing", who + ": nobody listens there, but the connect never completed");
@@ -735,7 +762,7 @@ struct ConnEngine : Engine
 		int const nops = int(rng.range(2, tier ? 40 : 30));
 		// most programs start by listening
 		for (int a = 0; a < na; ++a)
-			if (rng.chance(0.85)) { Op o; o.op = "listen"; o.a = a; o.b = rng.chance(0.3) ? 1 : 0; o.at = 0; p.ops.push_back(o); }
+			if (rng.chance(0.85)) { Op o; o.op = "listen"; o.a = a; o.b = (rng.chance(0.3) ? 1 : 0) | (rng.chance(0.06) ? 2 : 0); o.at = 0; p.ops.push_back(o); }
 		for (int i = 0; i < nops; ++i)
 		{
 			Op o;
@@ -746,7 +773,7 @@ struct ConnEngine : Engine
 			else if (u < 0.68) { o.op = "close_client"; o.a = int64_t(rng.below(uint64_t(nc))); }
 			else if (u < 0.74) { o.op = "close_accepted"; o.a = int64_t(rng.below(k_max_slots)); }
 			else if (u < 0.78) { o.op = "close_acceptor"; o.a = int64_t(rng.below(uint64_t(na))); o.b = rng.chance(0.5) ? 1 : 0; }
-			else if (u < 0.84) { o.op = "listen"; o.a = int64_t(rng.below(uint64_t(na))); o.b = rng.chance(0.3) ? 1 : 0; }
+			else if (u < 0.84) { o.op = "listen"; o.a = int64_t(rng.below(uint64_t(na))); o.b = (rng.chance(0.3) ? 1 : 0) | (rng.chance(0.3) ? 2 : 0); }
 			else if (c13) { o.op = "udp"; o.a = int64_t(rng.below(k_max_udp)); o.b = int64_t(rng.below(k_max_udp)); o.c = int64_t(rng.below(2000)); }
 			else { o.op = "connect"; o.a = int64_t(rng.below(uint64_t(nc))); o.b = int64_t(rng.below(uint64_t(na))); o.c = int64_t(rng.below(20)); }
 			p.ops.push_back(o);
